@@ -1,3 +1,4 @@
+pub mod c01;
 pub mod c03;
 pub mod c04;
 pub mod c05;
@@ -5,7 +6,7 @@ pub mod c05;
 use crate::framework::Scenario;
 
 pub fn all() -> Vec<&'static dyn Scenario> {
-    vec![&c03::C03, &c04::C04, &c05::C05]
+    vec![&c01::C01, &c03::C03, &c04::C04, &c05::C05]
 }
 
 pub fn by_id(id: &str) -> Option<&'static dyn Scenario> {
